@@ -1,6 +1,8 @@
 import XrsVerif.Proofs.Polygonize
 import XrsVerif.Proofs.PolygonizeOrbit
 import XrsVerif.Proofs.PolygonizeRegions
+import XrsVerif.Proofs.PolygonizeLossless
+import XrsVerif.Proofs.PolygonizeLosslessB
 /-
   C15 -- polygonize is lossless.
 
@@ -10,35 +12,40 @@ import XrsVerif.Proofs.PolygonizeRegions
   else Left), `followLoop`/`follow` (vertex recorded when the heading changes, visited flags), `scan`
   (exterior / hole starts, hole attachment), `polygonizeNumpy` (nx = 1 workaround, transform).
 
-  Proved here, for every raster size, values, mask, region array and start:
-  * `regions_are_components`  `_calculate_regions` (W/S/SW/SE rules, merge lookup with re-linking, compaction):
-                              masked pixels get 0, unmasked pixels a positive id, and two unmasked pixels
-                              get the same id exactly when a chain of 4- (8-) adjacent unmasked pixels with
-                              close values joins them inside the raster (closeness symmetric + transitive,
-                              i.e. integer rasters; needed only for the SW/SE short-cuts);
-  * `follow_invariant`        every state keeps the region on its left and a pixel outside the region (or
-                              outside the raster) on its right;
-  * `follow_axis_parallel`    every iteration moves the current vertex by one unit along the heading:
-                              vertices are pixel corners joined by axis-parallel unit steps;
-  * `follow_step_injective`   the step is injective on boundary-edge states;
-  * `follow_terminates`       started on a boundary edge the follower is back at its start within the fuel
-                              (injective self-map of a finite set, at most 4·nx·ny states);
-  * `hole_start_on_boundary`, `exterior_start_on_boundary`  the states `_scan` starts from are boundary edges
-                              (for exteriors: given that the pixel is the first of its region in scan order);
-  * `vertices_on_corners`     every vertex is an integer point of `[0,nx] × [0,ny]`;
-  * `ring_closed_rectilinear` every returned ring starts and ends at the start vertex and consecutive
-                              vertices share a coordinate;
-  * `transform_every_vertex`  the affine transform is applied to every vertex of every ring, nothing else;
-  * `lossless_partial`        the above assembled for one boundary.
+  Proved here, for every raster size, values, mask and connectivity, no size bound (closeness reflexive,
+  symmetric, transitive -- integer rasters, the property's domain):
+  * `lossless`                **the complete statement**: `scan` succeeds and its result passes `losslessB`, the
+                              decidable formalisation of the whole property (cell assignment by the even-odd
+                              rule; same polygon <-> same connected region; shoelace area = pixel count;
+                              exteriors anticlockwise, holes clockwise; rings closed, on pixel corners,
+                              axis-parallel edges of non-zero length, >= 4 vertices).  `holds_all`: for integer
+                              equality `holds nx ny c8 values mask = true` for every raster.
+  Its clauses in readable form:
+  * `lossless_cells`          masked pixel centre in no polygon; unmasked in exactly one (inside the exterior
+                              ring, inside no hole ring), number `regionId - 1`, with a close value;
+  * `lossless_even_odd`       total crossing parity over all rings of polygon k is odd <-> pixel in region k+1;
+  * `polygons_are_components` polygons <-> connected regions one to one;
+  * `lossless_area_orientation`  sum of shoelace areas = pixel count; exterior anticlockwise, holes clockwise;
+  * `region_ids_first_pixel_ranks`  region ids are the ranks of the first pixels in scan order;
+  * `lossless_numpy`, `lossless_single_column`  the same through `polygonizeNumpy` (nx = 1 workaround);
+  and the building blocks:
+  * `regions_are_components`  `_calculate_regions`: masked pixels get 0, unmasked pixels a positive id, and two
+                              unmasked pixels get the same id exactly when a chain of 4- (8-) adjacent unmasked
+                              pixels with close values joins them;
+  * `follow_invariant`, `follow_axis_parallel`, `follow_step_injective`, `follow_terminates`,
+    `hole_start_on_boundary`, `exterior_start_on_boundary`, `vertices_on_corners`, `ring_closed_rectilinear`,
+    `transform_every_vertex`, `lossless_partial` (one boundary).
 
-  NOT proved (the gap): that the rings, rasterised with the even-odd rule at the pixel centres, give back
-  exactly the regions (a discrete Jordan-curve argument), that the shoelace area equals the pixel count
-  (discrete Green), the orientation claim, that the region ids are the *ranks* of the first pixels (that they
-  are the components is proved), and that `scan` attaches every hole to the right exterior.  The complete statement is `Polygonize.losslessB` (a decidable check of a result against
-  the raster, with connectivity expressed through the C16 labelling whose correctness Props/C16 proves);
-  below it is evaluated by the kernel on concrete rasters (hole, diagonal pinch, mask, single column) and
-  the correspondence run checks it -- through an independent Python oracle -- on the real code for every
-  raster up to 12 pixels over {0,1}, 11 pixels over three symbols, and random larger ones.
+  Proof idea of `lossless` (Proofs/PolygonizeLossless*.lean, no Jordan curve theorem): the states of a followed
+  ring form a list that `step` permutes; winding numbers counted on unit edges (vertical / horizontal ray) agree
+  and are constant on 8-adjacent pixels of the region (the turn-right-first rule at diagonal pinches); the scan
+  invariant shows that every boundary edge whose upper pixel is in the raster lies on exactly one followed cycle,
+  so going up a column the winding number flips exactly where region membership does; discrete Green gives area
+  and orientation.
+
+  What is outside: that the hand model is `polygonize.py` (checked by the correspondence run: exact comparison
+  of region array, column and every vertex on all small rasters and random larger ones, plus an independent
+  oracle); float closeness that is not an equivalence (NaN, inf, tolerances).
 -/
 set_option linter.unusedVariables false
 namespace XrsVerif.C15
@@ -146,8 +153,7 @@ theorem transform_every_vertex {V : Type} (nx ny : Nat) (conn8 : Bool) (close : 
     region on its left and the complement on its right at every step (`follow_invariant`), each step
     being one unit along an axis (`follow_axis_parallel`), no boundary edge being visited twice before
     the return (`follow_step_injective`).
-    The full statement -- `losslessB … = true` for the output of `scan` on every raster -- is not proved;
-    see the header. -/
+    (Superseded by `lossless`, which proves the full statement for every raster.) -/
 theorem lossless_partial (nx ny : Nat) (regs : Nat → Nat) (ij : Nat) (hole : Bool)
     (hstart : Valid (inRegion nx ny regs (regs ij))
       ⟨(ij % nx : Nat), (ij / nx : Nat), if hole then .W else .E⟩) :
@@ -158,6 +164,169 @@ theorem lossless_partial (nx ny : Nat) (regs : Nat → Nat) (ij : Nat) (hole : B
   cases hf : follow nx ny regs ij hole with
   | none => rw [hf] at h; cases h
   | some tr => exact ⟨tr, rfl, ring_closed_rectilinear nx ny regs ij hole tr hf⟩
+
+/-- region ids are first-pixel ranks: a pixel with id `r + 1 ≥ 2` is preceded (scan order) by a pixel with
+    id `r`; so `column[k]` is the value of the first pixel of region `k + 1` -/
+theorem region_ids_first_pixel_ranks {V : Type} (nx ny : Nat) (conn8 : Bool) (close : V → V → Bool)
+    (values : Nat → V) (mask : Nat → Bool) (hnx : 0 < nx)
+    (hsymm : ∀ a b, close a b = true → close b a = true)
+    (htrans : ∀ a b c, close a b = true → close b c = true → close a c = true)
+    {ij r : Nat} (hij : ij < nx * ny) (hr : 1 ≤ r)
+    (h : regionId nx ny conn8 close values mask ij = r + 1) :
+    ∃ p, p < ij ∧ regionId nx ny conn8 close values mask p = r :=
+  regionId_ranked nx ny conn8 close values mask hnx hsymm htrans hij hr h
+
+/-- **Polygonize is lossless: cell assignment.**  For every raster size, values, mask and connectivity
+    (closeness reflexive, symmetric, transitive: integer rasters) `scan` succeeds, returns as many values as
+    polygons, and assigning each pixel centre `(X + ½, Y + ½)` to the polygons whose exterior ring contains it
+    and none of whose hole rings does (`inPolygon`: even-odd rule on the returned, vertex-compressed rings --
+    the very test `losslessB` uses) puts
+    * every masked pixel in no polygon,
+    * every unmasked pixel in exactly one polygon, number `regionId − 1`, whose column entry is close to
+      the pixel's value. -/
+theorem lossless_cells {V : Type} (nx ny : Nat) (conn8 : Bool) (close : V → V → Bool)
+    (values : Nat → V) (mask : Nat → Bool) (hnx : 0 < nx) (hrefl : ∀ a, close a a = true)
+    (hsymm : ∀ a b, close a b = true → close b a = true)
+    (htrans : ∀ a b c, close a b = true → close b c = true → close a c = true) :
+    let sc := scan nx ny conn8 close values mask
+    sc.ok = true ∧ sc.column.length = sc.polys.length ∧
+    ∀ X Y : Nat, X < nx → Y < ny →
+      (mask (X + Y * nx) = false →
+        ∀ k, k < sc.polys.length → inPolygon (sc.polys.getD k []) (X : Int) (Y : Int) = false) ∧
+      (mask (X + Y * nx) = true →
+        ∃ k, k < sc.polys.length ∧ k + 1 = regionId nx ny conn8 close values mask (X + Y * nx) ∧
+          (∀ k', k' < sc.polys.length →
+            (inPolygon (sc.polys.getD k' []) (X : Int) (Y : Int) = true ↔ k' = k)) ∧
+          ∃ v, sc.column.reverse[k]? = some v ∧ close v (values (X + Y * nx)) = true) :=
+  scan_cells_lossless nx ny conn8 close values mask hnx hrefl hsymm htrans _ rfl
+
+/-- **Even-odd form.**  For every polygon `k` and every pixel of the raster: the total number of ring edges
+    of polygon `k` (exterior and holes together) crossed by the ray from the pixel centre is odd exactly
+    when the pixel belongs to region `k + 1`; and this agrees with "inside the exterior, inside no hole". -/
+theorem lossless_even_odd {V : Type} (nx ny : Nat) (conn8 : Bool) (close : V → V → Bool)
+    (values : Nat → V) (mask : Nat → Bool) (hnx : 0 < nx)
+    (hsymm : ∀ a b, close a b = true → close b a = true)
+    (htrans : ∀ a b c, close a b = true → close b c = true → close a c = true) :
+    let sc := scan nx ny conn8 close values mask
+    ∀ k, k < sc.polys.length → ∀ X Y : Nat, X < nx → Y < ny →
+      (((sc.polys.getD k []).map (fun ring => crossings ring (X : Int) (Y : Int))).sum % 2 = 1 ↔
+        regionId nx ny conn8 close values mask (X + Y * nx) = k + 1) ∧
+      (inPolygon (sc.polys.getD k []) (X : Int) (Y : Int) = true ↔
+        regionId nx ny conn8 close values mask (X + Y * nx) = k + 1) := by
+  intro sc k hk X Y hX hY
+  obtain ⟨_, h2, _, _, _, h6⟩ := scan_regions_lossless nx ny conn8 close values mask hnx hsymm htrans
+  have hk' : k < (scan nx ny conn8 close values mask).regionDone := by rw [← h2]; exact hk
+  obtain ⟨a, b⟩ := h6 k hk' X Y hX hY
+  constructor
+  · show ((((scan nx ny conn8 close values mask).polys.getD k []).map _).sum % 2 = 1 ↔ _)
+    rw [b]; split <;> simp_all
+  · show (inPolygon ((scan nx ny conn8 close values mask).polys.getD k []) _ _ = true ↔ _)
+    rw [a, beq_iff_eq]
+
+/-- **The polygons are exactly the connected regions.**  Every polygon contains an unmasked pixel, and two
+    unmasked pixels lie in a common polygon iff they are joined by a chain of adjacent (4 / 8) unmasked
+    pixels with close values. -/
+theorem polygons_are_components {V : Type} (nx ny : Nat) (conn8 : Bool) (close : V → V → Bool)
+    (values : Nat → V) (mask : Nat → Bool) (hnx : 0 < nx)
+    (hsymm : ∀ a b, close a b = true → close b a = true)
+    (htrans : ∀ a b c, close a b = true → close b c = true → close a c = true) :
+    let sc := scan nx ny conn8 close values mask
+    (∀ k, k < sc.polys.length → ∃ X Y : Nat, X < nx ∧ Y < ny ∧ mask (X + Y * nx) = true ∧
+      inPolygon (sc.polys.getD k []) (X : Int) (Y : Int) = true) ∧
+    (∀ X Y X' Y' : Nat, X < nx → Y < ny → X' < nx → Y' < ny → mask (X + Y * nx) = true →
+      mask (X' + Y' * nx) = true →
+      ((∃ k, k < sc.polys.length ∧ inPolygon (sc.polys.getD k []) (X : Int) (Y : Int) = true ∧
+          inPolygon (sc.polys.getD k []) (X' : Int) (Y' : Int) = true) ↔
+        ConnP nx conn8 close values mask (nx * ny) (X + Y * nx) (X' + Y' * nx))) :=
+  scan_polygons_components nx ny conn8 close values mask hnx hsymm htrans _ rfl
+
+/-- **Area and orientation.**  For every polygon `k`: the shoelace areas of its rings (exterior positive,
+    holes negative) add up to the number of pixels of region `k + 1` (`area2` is twice the signed area); the
+    first ring -- the exterior -- is anticlockwise (positive area) and every further ring -- a hole -- is
+    clockwise (negative area).  Discrete Green: the shoelace area of a followed ring is twice the sum over
+    the pixels of its winding number. -/
+theorem lossless_area_orientation {V : Type} (nx ny : Nat) (conn8 : Bool) (close : V → V → Bool)
+    (values : Nat → V) (mask : Nat → Bool) (hnx : 0 < nx)
+    (hsymm : ∀ a b, close a b = true → close b a = true)
+    (htrans : ∀ a b c, close a b = true → close b c = true → close a c = true) :
+    let sc := scan nx ny conn8 close values mask
+    ∀ k, k < sc.polys.length →
+      ((sc.polys.getD k []).map area2).sum =
+        2 * (((List.range (nx * ny)).countP
+          (fun p => regionId nx ny conn8 close values mask p == k + 1) : Nat) : Int) ∧
+      ∃ ext holes, sc.polys.getD k [] = ext :: holes ∧ 0 < area2 ext ∧ ∀ h ∈ holes, area2 h < 0 :=
+  scan_regions_area nx ny conn8 close values mask hnx hsymm htrans _ rfl
+
+/-- **Polygonize is lossless -- the complete statement.**  For every raster size, values, mask and
+    connectivity (closeness reflexive, symmetric, transitive: integer rasters) `scan` succeeds and its result
+    passes `losslessB`, the decidable formalisation of the whole property: every unmasked pixel centre in
+    exactly one polygon (exterior minus holes, even-odd rule) carrying its value, masked pixels in none; two
+    pixels in the same polygon exactly when they are in the same connected region (as labelled by C16's
+    `regions`); each polygon's shoelace area = its pixel count; exteriors anticlockwise, holes clockwise; rings
+    closed, on pixel corners, axis-parallel edges of non-zero length, at least four vertices. -/
+theorem lossless {V : Type} (nx ny : Nat) (conn8 : Bool) (close : V → V → Bool)
+    (values : Nat → V) (mask : Nat → Bool) (hnx : 0 < nx) (hrefl : ∀ a, close a a = true)
+    (hsymm : ∀ a b, close a b = true → close b a = true)
+    (htrans : ∀ a b c, close a b = true → close b c = true → close a c = true) :
+    let sc := scan nx ny conn8 close values mask
+    sc.ok = true ∧ losslessB nx ny conn8 close values mask sc.column.reverse sc.polys = true :=
+  ⟨(scan_cells_lossless nx ny conn8 close values mask hnx hrefl hsymm htrans _ rfl).1,
+   scan_losslessB nx ny conn8 close values mask hnx hrefl hsymm htrans _ rfl⟩
+
+/-- `_polygonize_numpy` without a transform: it succeeds and its polygons are integer rings (mapped to
+    rationals) that pass `losslessB` -- for the raster itself if `nx ≠ 1`, for the widened 2-column raster
+    (second column masked out) of the `nx = 1` workaround otherwise -/
+theorem lossless_numpy {V : Type} (nx ny : Nat) (conn8 : Bool) (close : V → V → Bool)
+    (values : Nat → V) (mask : Nat → Bool) (hnx : 0 < nx) (hrefl : ∀ a, close a a = true)
+    (hsymm : ∀ a b, close a b = true → close b a = true)
+    (htrans : ∀ a b c, close a b = true → close b c = true → close a c = true) :
+    let out := polygonizeNumpy nx ny conn8 close values mask none
+    out.ok = true ∧
+    ∃ polysInt : List (List Ring),
+      out.polys = polysInt.map (fun rings => rings.map (fun r => r.map toRat)) ∧
+      (if nx = 1 then
+        losslessB 2 ny conn8 close (fun ij => values (ij / 2))
+          (fun ij => decide (ij % 2 = 0) && mask (ij / 2)) out.column polysInt
+       else losslessB nx ny conn8 close values mask out.column polysInt) = true := by
+  by_cases h1 : nx = 1
+  · have := lossless 2 ny conn8 close (fun ij => values (ij / 2))
+      (fun ij => decide (ij % 2 = 0) && mask (ij / 2)) (by omega) hrefl hsymm htrans
+    simp only [polygonizeNumpy, h1, if_true]
+    exact ⟨this.1, _, rfl, this.2⟩
+  · have := lossless nx ny conn8 close values mask hnx hrefl hsymm htrans
+    simp only [polygonizeNumpy, h1, if_false]
+    exact ⟨this.1, _, rfl, this.2⟩
+
+/-- the `nx = 1` workaround, cell assignment for the single column itself: pixel `Y` lies in no polygon if
+    masked, in exactly one polygon -- with a close value -- otherwise -/
+theorem lossless_single_column {V : Type} (ny : Nat) (conn8 : Bool) (close : V → V → Bool)
+    (values : Nat → V) (mask : Nat → Bool) (hrefl : ∀ a, close a a = true)
+    (hsymm : ∀ a b, close a b = true → close b a = true)
+    (htrans : ∀ a b c, close a b = true → close b c = true → close a c = true) :
+    let out := polygonizeNumpy 1 ny conn8 close values mask none
+    let sc := scan 2 ny conn8 close (fun ij => values (ij / 2)) (fun ij => decide (ij % 2 = 0) && mask (ij / 2))
+    out.ok = true ∧ out.column = sc.column.reverse ∧
+    out.polys = sc.polys.map (fun rings => rings.map (fun r => r.map toRat)) ∧
+    out.column.length = sc.polys.length ∧
+    ∀ Y : Nat, Y < ny →
+      (mask Y = false → ∀ k, k < sc.polys.length → inPolygon (sc.polys.getD k []) 0 (Y : Int) = false) ∧
+      (mask Y = true → ∃ k, k < sc.polys.length ∧
+          (∀ k', k' < sc.polys.length → (inPolygon (sc.polys.getD k' []) 0 (Y : Int) = true ↔ k' = k)) ∧
+          ∃ v, out.column[k]? = some v ∧ close v (values Y) = true) := by
+  intro out sc
+  have h := lossless_cells 2 ny conn8 close (fun ij => values (ij / 2))
+    (fun ij => decide (ij % 2 = 0) && mask (ij / 2)) (by omega) hrefl hsymm htrans
+  obtain ⟨h1, h2, h3⟩ := h
+  refine ⟨h1, rfl, rfl, by show sc.column.reverse.length = _; rw [List.length_reverse]; exact h2, ?_⟩
+  intro Y hY
+  have := h3 0 Y (by omega) hY
+  have e1 : (0 + Y * 2) % 2 = 0 := by omega
+  have e2 : (0 + Y * 2) / 2 = Y := by omega
+  simp only [e1, e2, decide_true, Bool.true_and] at this
+  obtain ⟨a, b⟩ := this
+  refine ⟨fun hm k hk => a hm k hk, fun hm => ?_⟩
+  obtain ⟨k, hk, _, hk2, v, hv, hc⟩ := b hm
+  exact ⟨k, hk, hk2, v, hv, hc⟩
 
 /-! ### non-vacuity, and the full statement evaluated on concrete rasters -/
 
@@ -172,6 +341,16 @@ def holds (nx ny : Nat) (c8 : Bool) (values : Nat → Int) (mask : Nat → Bool)
 def ringV : Nat → Int := fun ij => if ij = 4 then 0 else 1
 /-- 2×2 checkerboard: a diagonal pinch (one bow-tie polygon per value with connectivity 8) -/
 def pinchV : Nat → Int := fun ij => if ij = 0 ∨ ij = 3 then 1 else 0
+
+/-- for integer rasters (closeness = equality) the full check holds for **every** raster -/
+theorem holds_all (nx ny : Nat) (c8 : Bool) (values : Nat → Int) (mask : Nat → Bool) (hnx : 0 < nx) :
+    holds nx ny c8 values mask = true := by
+  have := lossless nx ny c8 eqI values mask hnx (fun a => by simp [eqI])
+    (fun a b h => by simp only [eqI, beq_iff_eq] at *; exact h.symm)
+    (fun a b c h1 h2 => by simp only [eqI, beq_iff_eq] at *; exact h1.trans h2)
+  unfold holds
+  simp only [Bool.and_eq_true]
+  exact this
 
 example : (scan 3 3 false eqI ringV (fun _ => true)).polys =
     [[[(0, 0), (3, 0), (3, 3), (0, 3), (0, 0)], [(2, 1), (1, 1), (1, 2), (2, 2), (2, 1)]],
@@ -203,5 +382,25 @@ example : calculateRegions 3 2 false eqI (fun ij => if ij = 1 then 0 else 1) (fu
 /-- the start states of `lossless_partial` exist: exterior of the ring region, and its hole -/
 example : Valid (inRegion 3 3 (fun ij => if ij = 4 then 2 else 1) 1) ⟨0, 0, .E⟩ := by decide
 example : Valid (inRegion 3 3 (fun ij => if ij = 4 then 2 else 1) 1) ⟨1, 0, .W⟩ := by decide
+
+/-- the hypotheses of `lossless_cells` hold for integer equality on the 3×3 ring raster, and its
+    conclusion there is not vacuous: the centre pixel lies in polygon 1 only, a border pixel in polygon 0 only -/
+example : (0 < 3) ∧ (∀ a : Int, eqI a a = true) := ⟨by decide, fun a => by simp [eqI]⟩
+example :
+    let sc := scan 3 3 false eqI ringV (fun _ => true)
+    sc.polys.length = 2 ∧ inPolygon (sc.polys.getD 1 []) 1 1 = true ∧ inPolygon (sc.polys.getD 0 []) 1 1 = false ∧
+      inPolygon (sc.polys.getD 0 []) 0 2 = true ∧ regionId 3 3 false eqI ringV (fun _ => true) 4 = 2 := by
+  decide +kernel
+example := lossless_cells 3 3 false eqI ringV (fun _ => true) (by decide) (fun a => by simp [eqI])
+  (fun a b h => by simp only [eqI, beq_iff_eq] at *; exact h.symm)
+  (fun a b c h1 h2 => by simp only [eqI, beq_iff_eq] at *; exact h1.trans h2)
+
+/-- `lossless_area_orientation` on the 3×3 ring: polygon 0 has an exterior of area 9 and a hole of area −1
+    (8 pixels), polygon 1 is the unit square -/
+example :
+    let sc := scan 3 3 false eqI ringV (fun _ => true)
+    (sc.polys.getD 0 []).map area2 = [18, -2] ∧ (sc.polys.getD 1 []).map area2 = [2] ∧
+      (List.range 9).countP (fun p => regionId 3 3 false eqI ringV (fun _ => true) p == 1) = 8 := by
+  decide +kernel
 
 end XrsVerif.C15
